@@ -5,29 +5,43 @@ package main
 // A behaviour is a JSON array of integer arrays  [op, x, y, z, view..., (content...)]  (see MC_StateJournal.tla):
 //   op 0 OpenBase(content)  1 SetBalance(a,v) 2 SetEnergy(a,e,t) 3 SetMaster(a,m) 4 SetCode(a,c) 5 SetStorage(a,k,v)
 //      7 Delete(a) 8 NewCheckpoint -> x  9 RevertTo(x)  10 Stage -> content  11 Commit -> x-th  12 Reopen(x)
+//      13 AddLog(id) 14 AddTransfer(id) 15 AddRefund(g) 16 Suicide(a) -> y     (through runtime/statedb)
 //   view    = per address  bal en bt ms cd st[1..NK]      (what the getters must answer after the step)
 //   content = per address  bal en bt ms cd sw st[1..NK]   (the canonical content = the identity of the root)
+//   side    = refund, suicide flag per address, number of logs, (kind, id)*   (statedb's GetRefund/HasSuicided/GetLogs)
+//
+// Beyond the getters: State.BuildStorageTrie(a).Hash() must be in bijection with the predicted storage of a (while a was
+// not deleted in this State object); after every Commit the account leaves are read straight from the committed account
+// trie and the storage trie named by the leaf's metadata (storage id, major, minor version) is walked: it must hold
+// exactly the predicted storage.  result.json carries roots / storage roots / leaves with their predicted contents;
+// harness/cmd/triecheck -states recomputes every one of them with its independent encoder and hasher.
 
 import (
 	"bufio"
+	"bytes"
+	"encoding/hex"
 	"encoding/json"
 	"fmt"
 	"os"
 	"sort"
 	"strings"
 
+	"github.com/ethereum/go-ethereum/rlp"
+
+	"github.com/vechain/thor/v2/muxdb"
+	"github.com/vechain/thor/v2/state"
 	"github.com/vechain/thor/v2/thor"
 	"github.com/vechain/thor/v2/trie"
 )
 
 type violation struct {
-	Kind     string  `json:"kind"` // read | root-differs-for-equal-content | root-equal-for-different-content | error | panic | checkpoint
-	Beh      int     `json:"behaviour"`
-	Step     int     `json:"step"`
-	What     string  `json:"what"`
-	History  [][]int `json:"history,omitempty"`
-	Cache    string  `json:"cache"`
-	RawWrite bool    `json:"rawWrites"`
+	Kind    string  `json:"kind"` // read | root-differs-for-equal-content | root-equal-for-different-content | error | panic | checkpoint
+	Beh     int     `json:"behaviour"`
+	Step    int     `json:"step"`
+	What    string  `json:"what"`
+	History [][]int `json:"history,omitempty"`
+	Cache   string  `json:"cache"`
+	Mode    string  `json:"mode"` // which write path (SetStorage / SetRawStorage / EncodeStorage), statedb or not
 }
 
 type registry struct {
@@ -74,7 +88,17 @@ type replayer struct {
 	stages   int
 	reopens  int
 	flushes  int
-	rawWrite bool
+	wmode    int               // scalar storage writes through 0 SetStorage, 1 SetRawStorage, 2 EncodeStorage
+	sdbChunk bool              // this chunk goes through runtime/statedb (behaviours with statedb operations always do)
+	sreg     *registry         // storage content <-> BuildStorageTrie hash
+	leaves   map[string]string // "content|address" -> hex of the committed account leaf
+	builds   int
+	leafChk  int
+	sideChk  int
+}
+
+func (rp *replayer) mode(w *world) string {
+	return fmt.Sprintf("%s, statedb=%v", []string{"SetStorage", "SetRawStorage", "EncodeStorage"}[rp.wmode], w.useSDB)
 }
 
 func (rp *replayer) viewLen() int    { return rp.na * (5 + rp.nk) }
@@ -85,9 +109,14 @@ func key(xs []int) string {
 
 func (rp *replayer) store(w *world, a, k, v int) {
 	rv := realVal(v)
-	if rv >= listBase || rp.rawWrite {
+	switch {
+	case rp.wmode == 2:
+		if err := w.encodeStorage(a, k, rv); err != nil {
+			panic(err)
+		}
+	case rv >= listBase || rp.wmode == 1:
 		w.setRawStorage(a, k, rv)
-	} else {
+	default:
 		w.setStorage(a, k, rv)
 	}
 }
@@ -110,9 +139,116 @@ func (rp *replayer) compare(w *world, view []int) string {
 				a, e[0], e[1], e[3], e[4], ex, r.bal, r.en, r.ms, r.cd, r.ch, r.ex)
 		}
 		for i, s := range r.st {
-			if want := realVal(e[5+i]); s.raw != want || s.b32 != want {
-				return fmt.Sprintf("address %d key %d: expected storage value %d, GetRawStorage=%d GetStorage=%d", a, s.k, want, s.raw, s.b32)
+			if want := realVal(e[5+i]); s.raw != want || s.b32 != want || s.dec != want {
+				return fmt.Sprintf("address %d key %d: expected storage value %d, GetRawStorage=%d GetStorage=%d DecodeStorage=%d", a, s.k, want, s.raw, s.b32, s.dec)
 			}
+		}
+		if r.viaSDB && (r.sx != ex || r.sm == ex || r.cs != e[4]) {
+			return fmt.Sprintf("address %d through statedb: expected exist=%v code=%d, Exist=%v Empty=%v GetCodeSize->code %d", a, ex, e[4], r.sx, r.sm, r.cs)
+		}
+	}
+	return ""
+}
+
+// statedb side journal: side = refund, suicide flag per address, number of logs, (kind, id)*
+func (rp *replayer) compareSide(w *world, side []int) string {
+	if w.sdb == nil {
+		return ""
+	}
+	rp.sideChk++
+	got := w.readSide()
+	if got.rf != side[0] {
+		return fmt.Sprintf("GetRefund=%d, specification says %d", got.rf, side[0])
+	}
+	for a := 1; a <= rp.na; a++ {
+		if hs := w.sdb.HasSuicided(commonAddr(a)); hs != (side[a] == 1) {
+			return fmt.Sprintf("HasSuicided(address %d)=%v, specification says %v", a, hs, side[a] == 1)
+		}
+	}
+	var ev, tr [][]int
+	n := side[1+rp.na]
+	for i := 0; i < n; i++ {
+		p := []int{side[2+rp.na+2*i], side[3+rp.na+2*i]}
+		if p[0] == 1 {
+			ev = append(ev, p)
+		} else {
+			tr = append(tr, p)
+		}
+	}
+	if fmt.Sprint(ev) != fmt.Sprint(got.ev) && !(len(ev) == 0 && len(got.ev) == 0) {
+		return fmt.Sprintf("GetLogs events=%v, specification says %v", got.ev, ev)
+	}
+	if fmt.Sprint(tr) != fmt.Sprint(got.tr) && !(len(tr) == 0 && len(got.tr) == 0) {
+		return fmt.Sprintf("GetLogs transfers=%v, specification says %v", got.tr, tr)
+	}
+	return ""
+}
+
+// storageKeyOf: the predicted storage of address a in a view, as realized values
+func (rp *replayer) storageKeyOf(view []int, a int) string {
+	st := make([]int, rp.nk)
+	for k := 0; k < rp.nk; k++ {
+		st[k] = realVal(view[(a-1)*(5+rp.nk)+5+k])
+	}
+	return key(st)
+}
+
+// verifyLeaves reads the committed account trie directly: leaf present iff the account is in the content; the storage
+// trie named by the leaf's metadata holds exactly the predicted storage (with the key preimages as metadata)
+func (rp *replayer) verifyLeaves(w *world, root trie.Root, content []int) string {
+	rp.leafChk++
+	acct := w.d.db.NewTrie(muxdb.AccountTrieName, root)
+	for a := 1; a <= rp.na; a++ {
+		e := content[(a-1)*(6+rp.nk) : a*(6+rp.nk)]
+		ad := addrOf(a)
+		data, meta, err := acct.Get(thor.Blake2b(ad[:]).Bytes())
+		if err != nil {
+			return fmt.Sprintf("account leaf of address %d unreadable at the committed root: %v", a, err)
+		}
+		present := e[0] != 0 || e[1] != 0 || e[3] != 0 || e[4] != 0
+		if present != (len(data) > 0) {
+			return fmt.Sprintf("address %d: leaf present=%v in the committed account trie, content says %v", a, len(data) > 0, present)
+		}
+		if !present {
+			continue
+		}
+		rp.leaves[key(content)+"|"+fmt.Sprint(a)] = hex.EncodeToString(data)
+		var acc state.Account
+		if err := rlp.DecodeBytes(data, &acc); err != nil {
+			return fmt.Sprintf("address %d: leaf does not decode: %v", a, err)
+		}
+		if (len(acc.StorageRoot) > 0) != (e[5] == 1) {
+			return fmt.Sprintf("address %d: leaf has storage root=%v, content says explicit storage root=%v", a, len(acc.StorageRoot) > 0, e[5] == 1)
+		}
+		if e[5] == 0 {
+			if len(meta) != 0 {
+				return fmt.Sprintf("address %d: leaf without storage root carries metadata %x", a, meta)
+			}
+			continue
+		}
+		var am state.AccountMetadata
+		if err := rlp.DecodeBytes(meta, &am); err != nil || len(am.StorageID) == 0 {
+			return fmt.Sprintf("address %d: storage metadata %x unusable (%v)", a, meta, err)
+		}
+		st := w.d.db.NewTrie(state.StorageTrieName(am.StorageID), trie.Root{Hash: thor.BytesToBytes32(acc.StorageRoot),
+			Ver: trie.Version{Major: am.StorageMajorVer, Minor: am.StorageMinorVer}})
+		got := map[string]string{}
+		it := trie.NewIterator(st.NodeIterator(nil, 0))
+		for it.Next() {
+			got[string(it.Key)] = string(it.Value) + "|" + string(it.Meta)
+		}
+		if it.Err != nil {
+			return fmt.Sprintf("address %d: storage trie named by the leaf metadata (id %x, version %d.%d) cannot be walked: %v", a, am.StorageID, am.StorageMajorVer, am.StorageMinorVer, it.Err)
+		}
+		want := map[string]string{}
+		for k := 1; k <= rp.nk; k++ {
+			if v := e[5+k]; v != 0 {
+				kk := keyOf(k)
+				want[string(thor.Blake2b(kk[:]).Bytes())] = string(rawOf(realVal(v))) + "|" + string(bytes.TrimLeft(kk[:], "\x00"))
+			}
+		}
+		if fmt.Sprint(want) != fmt.Sprint(got) {
+			return fmt.Sprintf("address %d: storage trie named by the leaf metadata (version %d.%d) holds %d slots %x, content says %x", a, am.StorageMajorVer, am.StorageMinorVer, len(got), got, want)
 		}
 	}
 	return ""
@@ -186,11 +322,18 @@ func (rp *replayer) openBase(w *world, content []int) (kind, what string) {
 }
 
 func (rp *replayer) run(bi int, b [][]int) (v *violation) {
-	w := &world{d: rp.d}
+	w := &world{d: rp.d, useSDB: rp.sdbChunk}
+	for _, e := range b {
+		if e[0] >= 13 {
+			w.useSDB = true
+		}
+	}
 	step := 0
 	fail := func(kind, what string) *violation {
-		return &violation{Kind: kind, Beh: bi, Step: step, What: what, History: b, Cache: rp.d.cache, RawWrite: rp.rawWrite}
+		return &violation{Kind: kind, Beh: bi, Step: step, What: what, History: b, Cache: rp.d.cache, Mode: rp.mode(w)}
 	}
+	deleted := map[int]bool{} // addresses deleted in the current State object
+	var stagedContent []int
 	defer func() {
 		if r := recover(); r != nil {
 			if s, ok := r.(string); ok && strings.HasPrefix(s, "HARNESS") {
@@ -208,6 +351,13 @@ func (rp *replayer) run(bi int, b [][]int) (v *violation) {
 			panic("HARNESS: malformed behaviour entry")
 		}
 		view := e[4 : 4+vl]
+		side := e[4+vl:]
+		if op == 0 || op == 10 {
+			side = e[4+vl+cl:]
+		}
+		if len(side) < 2+rp.na || len(side) != 2+rp.na+2*side[1+rp.na] {
+			panic("HARNESS: malformed side journal in behaviour entry")
+		}
 		var err error
 		switch op {
 		case 0:
@@ -226,6 +376,18 @@ func (rp *replayer) run(bi int, b [][]int) (v *violation) {
 			rp.store(w, x, y, z)
 		case 7:
 			w.del(x)
+			deleted[x] = true
+		case 13:
+			w.addLog(x)
+		case 14:
+			w.addTransfer(x)
+		case 15:
+			w.addRefund(x)
+		case 16:
+			if res := w.suicide(x); res != (y == 1) {
+				return fail("read", fmt.Sprintf("Suicide(address %d) returned %v, specification says %v", x, res, y == 1))
+			}
+			deleted[x] = true
 		case 8:
 			if rev := w.checkpoint(); rev != x {
 				return fail("checkpoint", fmt.Sprintf("NewCheckpoint returned %d, specification says %d", rev, x))
@@ -241,6 +403,7 @@ func (rp *replayer) run(bi int, b [][]int) (v *violation) {
 			if k, wh := rp.reg.check(key(e[4+vl:4+vl+cl]), h); k != "" {
 				return fail(k, wh)
 			}
+			stagedContent = e[4+vl : 4+vl+cl]
 		case 11:
 			n, cerr := w.doCommit()
 			if cerr != nil {
@@ -249,6 +412,9 @@ func (rp *replayer) run(bi int, b [][]int) (v *violation) {
 			if n != x {
 				panic("HARNESS: commit index out of step with the behaviour")
 			}
+			if what := rp.verifyLeaves(w, w.commits[n-1], stagedContent); what != "" {
+				return fail("leaf", what)
+			}
 		case 12:
 			rp.reopens++
 			if (bi+i)%16 == 0 {
@@ -256,6 +422,7 @@ func (rp *replayer) run(bi int, b [][]int) (v *violation) {
 				rp.flushes++
 			}
 			w.open(w.commits[x-1])
+			deleted = map[int]bool{}
 		default:
 			panic(fmt.Sprintf("HARNESS: unknown op %d", op))
 		}
@@ -265,13 +432,29 @@ func (rp *replayer) run(bi int, b [][]int) (v *violation) {
 		if what := rp.compare(w, view); what != "" {
 			return fail("read", what)
 		}
+		if what := rp.compareSide(w, side); what != "" {
+			return fail("read", what)
+		}
+		for a := 1; a <= rp.na; a++ {
+			if deleted[a] {
+				continue // BuildStorageTrie is only specified for addresses not deleted in this State object
+			}
+			h, berr := w.buildStorageRoot(a)
+			if berr != nil {
+				return fail("error", fmt.Sprintf("BuildStorageTrie(address %d): %v", a, berr))
+			}
+			rp.builds++
+			if k, wh := rp.sreg.check(rp.storageKeyOf(view, a), h); k != "" {
+				return fail("storage-"+k, fmt.Sprintf("BuildStorageTrie(address %d): %s", a, wh))
+			}
+		}
 	}
 	return nil
 }
 
-func opsKey(b [][]int, n int, cl int) string {
+func opsKey(b [][]int, n int, vl, cl int) string {
 	var sb strings.Builder
-	sb.WriteString(key(b[0][len(b[0])-cl:]))
+	sb.WriteString(key(b[0][4+vl : 4+vl+cl]))
 	for _, e := range b[1:n] {
 		fmt.Fprintf(&sb, "|%d,%d,%d,%d", e[0], e[1], e[2], e[3])
 	}
@@ -298,12 +481,12 @@ func replayMain(in, out string, na, nk int, seed int64, limit int) {
 		behs = append(behs, b)
 	}
 	f.Close()
-	cl := na * (6 + nk)
+	vl, cl := na*(5+nk), na*(6+nk)
 	// a behaviour that is a proper prefix of another one is covered by the longer one
 	prefixes := map[string]bool{}
 	for _, b := range behs {
 		for n := 1; n < len(b); n++ {
-			prefixes[opsKey(b, n, cl)] = true
+			prefixes[opsKey(b, n, vl, cl)] = true
 		}
 	}
 	type item struct {
@@ -312,7 +495,7 @@ func replayMain(in, out string, na, nk int, seed int64, limit int) {
 	}
 	var items []item
 	for _, b := range behs {
-		if k := opsKey(b, len(b), cl); !prefixes[k] {
+		if k := opsKey(b, len(b), vl, cl); !prefixes[k] {
 			items = append(items, item{k, b})
 		}
 	}
@@ -329,19 +512,19 @@ func replayMain(in, out string, na, nk int, seed int64, limit int) {
 		todo = sel
 	}
 	reg := newRegistry()
-	rp := &replayer{na: na, nk: nk, reg: reg}
+	rp := &replayer{na: na, nk: nk, reg: reg, sreg: newRegistry(), leaves: map[string]string{}}
 	var viols []*violation
 	const chunk = 256
 	for i, b := range todo {
 		if i%chunk == 0 {
 			// one database per chunk of behaviours; alternate the dummy cache of NewMem with a real node/root cache,
-			// and scalar writes through SetStorage with the same bytes through SetRawStorage
-			c := (i/chunk + int(seed)) % 4
+			// the three storage write paths (same bytes), and plain State with runtime/statedb on top
+			c := (i/chunk + int(seed)) % 12
 			cache := "dummy"
 			if c&1 == 1 {
 				cache = "real"
 			}
-			rp.d, rp.bases, rp.rawWrite = newDB(cache), map[string]trie.Root{}, c&2 == 2
+			rp.d, rp.bases, rp.wmode, rp.sdbChunk = newDB(cache), map[string]trie.Root{}, (c/2)%3, c >= 6
 		}
 		if v := rp.run(i, b); v != nil {
 			viols = append(viols, v)
@@ -350,15 +533,19 @@ func replayMain(in, out string, na, nk int, seed int64, limit int) {
 			}
 		}
 	}
-	roots := map[string]string{}
+	roots, sroots := map[string]string{}, map[string]string{}
 	for c, r := range reg.byContent {
 		roots[c] = r.String()
+	}
+	for c, r := range rp.sreg.byContent {
+		sroots[c] = r.String()
 	}
 	res := map[string]any{
 		"behaviours_loaded": len(behs), "behaviours_replayed": len(todo), "steps": rp.steps, "stages": rp.stages,
 		"reopens": rp.reopens, "code_cache_flushes": rp.flushes,
 		"distinct_contents": len(reg.byContent), "distinct_roots": len(reg.byRoot), "stage_hits_on_known_content": reg.hits,
-		"violations": viols, "roots": roots,
+		"violations": viols, "roots": roots, "sroots": sroots, "leaves": rp.leaves, "na": na, "nk": nk,
+		"build_storage_trie_calls": rp.builds, "committed_leaf_checks": rp.leafChk, "side_journal_checks": rp.sideChk,
 	}
 	writeJSON(out, res)
 	fmt.Printf("{\"replayed\":%d,\"steps\":%d,\"stages\":%d,\"distinct_roots\":%d,\"violations\":%d}\n",
